@@ -260,6 +260,7 @@ K_TR_IND = [H("k_c18_ind_" + sh, "transient", "inductive step from ANY state of 
                TR_FNS, "1 operation from an arbitrary invariant state, instantiation TransientSource<Child mock>, unwind 3",
                timeout_q=900)
             for sh in ["keep", "register", "disable", "disabled", "remove", "replace", "none"]]
+PROPS["C16"]["k"] = PROPS["C16"]["k"] + K_TR_IND
 P("C18", "proof", K_TR_IND + [K_TR["3"], K_TR["e3"], K_TR["noop"], K_TR["4"], K_TR["5"]], bounds="3 operations (quick), 4-5 (thorough)",
   outside="fd-backed children are represented by the mock child (a double unregister is ENOENT for Generic: shown natively); "
           "more than two changes without an intervening re-registration in the k-step harnesses (the inductive family covers one "
@@ -357,7 +358,7 @@ M_TM = {
     "timer": M("timer", OB.ob_timer, OB.ob_timer.__doc__, ["<Timer as EventSource>::register", "::unregister", "::reregister", "::process_events"],
                "all paths (loop-free)", replay=["c05_timer_scenarios", "c01_routing_scenarios"]),
 }
-M_POLL = M("poll", OB.ob_poll, OB.ob_poll.__doc__, ["sys::Poll::poll"], "timer drain loop unrolled twice", replay=["c01_routing_scenarios", "c05_timer_scenarios"])
+M_POLL = M("poll", OB.ob_poll, OB.ob_poll.__doc__, ["sys::Poll::poll"], "timer drain loop unrolled twice", replay=["c01_routing_scenarios", "c05_timer_scenarios", "p_sig_stress"])
 M_DELEG = M("delegation", OB.ob_delegation, OB.ob_delegation.__doc__, ["PingSource/Channel/Executor/StreamSource/Signals ::register/reregister/unregister"],
             "all paths (loop-free)", replay=["c01_routing_scenarios", "p_chan_stress"])
 M_TOK = M("token", OB.ob_token, OB.ob_token.__doc__, TOKEN_FNS, "full 64-bit key space (bit-vector validity queries, no unrolling)",
@@ -389,7 +390,7 @@ def addm(pid, obs):
     PROPS[pid]["m"] = PROPS[pid].get("m", []) + obs
 
 
-addm("C01", [M_DE["disp1"], M_DE["fsub"], M_TOK, M_TM["timer"]])
+addm("C01", [M_DE["disp1"], M_DE["fsub"], M_DE["lc2"], M_TOK, M_TM["timer"]])
 addm("C20", [M_TOK, M_SLOTS])
 addm("C02", [M_DE["disp1"], M_CH["process"], M_EX["process"], M_POLL])
 addm("C03", [M_PING["ping"], P_Q["ping"]])
@@ -406,7 +407,7 @@ P("C10", "model_checking", [], [M_EX["process"], M_EX["send"], M_EX["drop"], M_E
   bounds="engine M: dequeue/poll loops unrolled twice; engine P: see obligation bounds",
   outside="async_task internals (a wake of a non-running, non-scheduled task calls the schedule function once; futures are "
           "polled only inside Runnable::run, which only the loop thread calls); weak memory")
-P("C11", "model_checking", [], [M_L["run"], M_L["block_on"], M_L["signal"], P_Q["sig"]],
+P("C11", "model_checking", [], [M_L["run"], M_L["block_on"], M_L["signal"], M_POLL, P_Q["sig"]],
   bounds="engine M: 2 loop iterations; engine P: 3 iterations, 2 remote operations",
   outside="the stickiness of Poller::notify itself (polling's documented contract, modelled); a stop() racing run's initial reset "
           "(excluded by the property text)")
